@@ -60,7 +60,12 @@ macro_rules! walkers {
             }
 
             fn answer(f: u32) -> impl (for<'u> Fn(&'u Unimock, u8) -> $Out) + Send + Sync {
-                move |_, a| $Out(format!("a{f}({a})"))
+                move |_, a| {
+                    if f >= 1000 {
+                        panic!("user:ans");
+                    }
+                    $Out(format!("a{f}({a})"))
+                }
             }
 
             pub enum St<'p, F: Sig, O: Ordering + Copy> {
